@@ -309,6 +309,23 @@ func EncodeRemainLength(r io.ByteReader) (int, error) {
 	return int(vbi), nil
 }
 
+// readRemain reads the n bytes of the packet body from r.
+// The buffer grows with the bytes that have actually been received, so that a large remaining length
+// which is merely declared in the fixed header does not allocate memory.
+func readRemain(r io.Reader, n int) ([]byte, error) {
+	const prealloc = 4096
+	if n <= prealloc {
+		b := make([]byte, n)
+		_, err := io.ReadFull(r, b)
+		return b, err
+	}
+	buf := bytes.NewBuffer(make([]byte, 0, prealloc))
+	if _, err := io.CopyN(buf, r, int64(n)); err != nil {
+		return nil, err
+	}
+	return buf.Bytes(), nil
+}
+
 // EncodeUTF8String encodes the bytes into UTF-8 encoded strings, returns the encoded bytes, bytes size and error.
 func EncodeUTF8String(buf []byte) (b []byte, size int, err error) {
 	buflen := len(buf)
